@@ -170,9 +170,10 @@ Section Life.
       - simpl. lia.
       - intros k Hk. simpl. apply Hi. exact Hk. }
     (* the body: len, set_len 0, read, drop *)
-    assert (HA : post ((l <- len (i_vec it) ;; set_len (i_vec it) 0 ;;; es <- read_list cfg (i_pos it) l ;; drop_list cfg es) s)
+    assert (HA : post (into_drop_body cfg it s)
                       (fun _ s2 => destroyed s1 s2 (remaining bl p)) (fun s2 => destroyed s1 s2 (remaining bl p))).
-    { rewrite (bind_val _ _ _ _ _ (len_at cfg _ _ _ _ Hcfg Hv Hb)).
+    { unfold into_drop_body. rewrite (bind_val _ _ _ _ _ (is_default_at _ _ _ _ Hv)).
+      rewrite (bind_val _ _ _ _ _ (len_at cfg _ _ _ _ Hcfg Hv Hb)).
       rewrite (bind_val _ _ _ _ _ (set_len_at cfg s (i_vec it) b bl 0 Hcfg Hv Hb)). fold bl0. fold s1.
       rewrite (bind_val _ _ _ _ _ Hread).
       apply (drop_list_spec cfg Htracked); [exact Hnd|exact Hlive]. }
